@@ -87,8 +87,10 @@ def gen_cases(tier: str, seed: int):
                 steps.append(["rename_table", db, sc, t, r.choice(TABS + ["T9"])])
             elif x < 0.86:
                 steps.append([r.choice(["comment_on", "set_comment"]), db, sc, t, r.choice(["new", "other", ""])])
-            elif x < 0.94:
+            elif x < 0.90:
                 steps.append(["create_view", db, sc, r.choice(["V1", "V2"]), r.choice(TABS)])
+            elif x < 0.95:
+                steps.append([r.choice(["failing_create", "failing_ctas", "failing_drop_other"]), db, sc, t, _cols(r)])
             else:
                 steps.append(["drop_view", db, sc, r.choice(["V1", "V2"])])
         yield {"steps": steps}
@@ -195,6 +197,31 @@ def _run(case: dict, env: core.Env, fs: Any) -> None:
             if not exists or model[key]["kind"] != "view":
                 continue
             sql = f"DROP VIEW {fq}"
+        if op in ("failing_create", "failing_ctas", "failing_drop_other"):
+            # statements that fail (or are no-ops) must leave every observer's answer as it was
+            if op == "failing_create":
+                if not exists:
+                    continue
+                coldefs = ", ".join(f"{c} {ty}" for c, ty, _ in st[4])
+                sql = f"CREATE TABLE {fq} ({coldefs}) COMMENT = 'should not stick'"
+            elif op == "failing_ctas":
+                if not exists or model[key]["kind"] != "table" or _has_view_on(model, key):
+                    continue
+                sql = f"CREATE OR REPLACE TABLE {fq} AS SELECT 'oops'::INT AS X"
+            else:
+                other = next((k2 for k2 in model if k2[2] == st[3] and k2 != key and model[k2]["kind"] == "table"), None)
+                if other is None or exists:
+                    continue
+                sql = f"DROP TABLE IF EXISTS {fq}"  # does not exist here; a namesake lives in another schema
+            env.cover("op", op)
+            out = core.run_stmt(cur, sql)
+            env.count("failing_ddl_steps")
+            if op != "failing_drop_other" and out["ok"]:
+                env.witness(f"C09/failing-ddl-succeeded/{op}", sql)
+                return
+            _observe(env, {"DB1": conn, "DB2": obs}, model, f"step {si} {sql!r} (failed/no-op)", op)
+            altered = True
+            continue
         if sql is None:
             continue
         env.cover("op", op)
